@@ -9,7 +9,8 @@ From Knut Require Import Model.Str Model.Dec Model.Date Model.Account Model.Ledg
      Model.Journal Model.Check Model.Pipeline Model.Report Model.Cli Model.Perf Model.Weights
      Model.CliPortfolio Spec.PortfolioSpec Spec.WellformedSpec
      Proofs.SMapProofs Proofs.PortfolioDays Proofs.PortfolioReturns Proofs.PortfolioWeights Proofs.PortfolioProofs
-     Proofs.PortfolioWitness Proofs.PortfolioAlgebra Proofs.PortfolioValuesFull Proofs.PortfolioFlowsFull.
+     Proofs.PortfolioWitness Proofs.PortfolioAlgebra Proofs.PortfolioValuesFull Proofs.PortfolioFlowsFull
+     Proofs.PortfolioQuietDays.
 Import ListNotations.
 Open Scope Z_scope.
 
@@ -145,3 +146,33 @@ Proof.
     rewrite E. constructor; [|constructor]. split; vm_compute; reflexivity.
   - split; vm_compute; reflexivity.
 Qed.
+
+(* ---------------------------------------------------------------- external_flows_zero_source on W5 *)
+(* the days the builder makes from the directives (plus the period ends) *)
+Definition w5_src_days : list day :=
+  match load w2_journal with COk b => b_days (builder_touch b (end_dates w5_part)) | _ => [] end.
+
+Lemma w5_src : exists b, load w2_journal = COk b /\ pf_partition w5_cfg b = COk w5_part /\
+                         w5_src_days = b_days (builder_touch b (end_dates w5_part)).
+Proof.
+  destruct w5_runs as [b [H1 [H2 _]]]. exists b. split; [exact H1|]. split; [exact H2|].
+  unfold w5_src_days. rewrite H1. reflexivity.
+Qed.
+
+Definition quiet_b (x : day) : bool := match d_prices x with [] => untargeted_b x | _ => false end.
+
+Lemma quiet_b_ok x : quiet_b x = true -> quiet x.
+Proof.
+  unfold quiet_b, quiet. destruct (d_prices x); [|discriminate]. intros H. split; [reflexivity|apply untargeted_b_ok; exact H].
+Qed.
+
+(* February's days declare no price and carry no @performance annotation (2023-01-01 declares one) *)
+Lemma w5_february_quiet x : In x w5_src_days -> In (d_date x) [feb 10; feb 28] -> quiet x.
+Proof.
+  intros Hx Hd. apply quiet_b_ok.
+  assert (H : forallb (fun y => negb (mem [feb 10; feb 28] (d_date y)) || quiet_b y) w5_src_days = true) by (vm_compute; reflexivity).
+  rewrite forallb_forall in H. specialize (H x Hx). apply mem_in in Hd. rewrite Hd in H. exact H.
+Qed.
+
+Lemma w5_january_not_quiet : existsb (fun y => negb (quiet_b y)) w5_src_days = true.
+Proof. vm_compute. reflexivity. Qed.
